@@ -4,7 +4,7 @@
 (* The driver (drive/poly.cpp --record) logs, for a sample of its calls of  *)
 (* TriangulateIdx / Triangulate / PolygonTriangulator, one ndjson record    *)
 (*   {"polys":[[[x,y,idx],..],..], "tris":[[i,j,k],..], "valid":b,          *)
-(*    "ntri":n, "area2":a, "call":.., "ok":b, "why":..}                     *)
+(*    "ntri":n, "area2":a, "call":.., "ok":b, "why":.., "place":[..]}       *)
 (* with the lattice polygon set as the library saw it (after the exact      *)
 (* rotation / renumbering of the view) and the triangles it returned.       *)
 (* TLC evaluates the specification's predicates on every record:            *)
@@ -33,7 +33,12 @@ Next == \/ lvl = 0 /\ lvl' = 1 /\ i' \in 1..NChunks
         \/ lvl = 1 /\ lvl' = 2 /\ i' \in { j \in 1..NRec : (j - 1) \div ChunkSize + 1 = i }
 
 (* what the specification says about one record *)
+(* "place": <<>> or the placement <<sn, sd, tx, ty>> under which the library saw the set:  *)
+(* it must be one of the specification's placements and admissible for this set           *)
+PlaceLogged(r) == \/ Len(r.place) = 0
+                  \/ P!PlaceOK(<<r.place[1], r.place[2], r.place[3], r.place[4]>>, P!Undupped(r.polys))
 InputAsLogged(r) == /\ P!EpsValidWithDups(r.polys)     \* = EpsValidSet when no vertex is repeated
+                    /\ PlaceLogged(r)
                     /\ P!ExpectedTris(r.polys) = r.ntri
                     /\ P!SetArea2(r.polys) = r.area2
 Verdict(r) == IF r.valid THEN (IF InputAsLogged(r) THEN P!WhyInvalid(r.polys, r.tris) ELSE "input")
